@@ -82,7 +82,7 @@ def run_unit(spec_name, seed=None, rlimit=None, extra_args=(), keep_name=None, t
     res["linemap"] = out.map
     res["clauses"] = sorted({o[6] for o in out.map if o[0] == "clause"})
     res["trusted"] = scan_trusted(out)
-    cmd = ["verus", unit_path, "--output-json", "--time", "--triggers-mode", "silent", "--multiple-errors", "4"]
+    cmd = ["verus", unit_path, "--output-json", "--time", "--triggers-mode", "silent", "--multiple-errors", "12"]
     if rlimit: cmd += ["--rlimit", str(rlimit)]
     if seed is not None: cmd += ["--smt-option", "smt.random_seed=%d" % (seed % 1000)]
     if threads: cmd += ["--num-threads", str(threads)]
